@@ -26,6 +26,12 @@ import time
 
 import numpy as np
 
+
+def same_bits(a, b):
+    a = np.ascontiguousarray(a, dtype=np.float64)
+    b = np.ascontiguousarray(b, dtype=np.float64)
+    return a.shape == b.shape and a.tobytes() == b.tobytes()
+
 from .vlib import build, util
 
 util.ensure_repo_importable()
@@ -82,7 +88,7 @@ def make_script(c):
         system = system.copy()
         system.state = UnitArray([float(x) for x in c["state"]], "molecule")
     kw = dict(system=system,
-              t_sample=list(c["ts"]), time_step=c["dt"],
+              t_sample=[strengths.UnitValue(x) if isinstance(x, str) else x for x in c["ts"]], time_step=c["dt"],
               sampling_policy=c["policy"], sampling_interval=c.get("interval", 1),
               rng_seed=c.get("seed", 1), units_system=usys)
     if c.get("tmax", "default") != "default":
@@ -164,7 +170,7 @@ def compute_ref(engine, script, kind):
     r.T, r.X, r.ended, r.m, r.kind, r.size = T, X, ended, m, kind, size
     # the trajectory export and the state export must agree (both are species-major)
     r.stepsok = (len(ts) == len(T) and all(a == b for a, b in zip(ts, T))
-                 and all(np.array_equal(traj[i], X[i]) for i in range(len(T))))
+                 and all(same_bits(traj[i], X[i]) for i in range(len(T))))
     if kind != "gillespie":
         acc, ok = 0.0, True
         for k in range(len(T)):
@@ -176,7 +182,7 @@ def compute_ref(engine, script, kind):
     mode = script.init_state_processing
     r.x0ok = True
     if mode == "none" or (mode == "auto" and kind == "euler"):
-        r.x0ok = bool(np.array_equal(x0, X[0]))
+        r.x0ok = bool(same_bits(x0, X[0]))
     engine.finalize()
     return r
 
@@ -418,7 +424,7 @@ class Runner:
             recT.append(a)
             recN.append(a // 2 if a >= 0 else UNKNOWN)
             if a >= 0:
-                if not np.array_equal(traj[j], rf.X[a // 2]):
+                if not same_bits(traj[j], rf.X[a // 2]):
                     ok = False
                     why.append("data[%d] is not the state of step %d" % (j, a // 2))
             else:
@@ -428,10 +434,10 @@ class Runner:
         us_e, us_s = eng._units_system, eng._script.units_system
         exp_t = UnitArray(np.array(ts), Units(sys=us_e, dim=time_units_dimensions()), check_value=False).convert(us_s)
         exp_x = UnitArray(traj.reshape(-1), Units(sys=us_e, dim=quantity_units_dimensions()), check_value=False).convert(us_s)
-        if len(out.t) != ns or not np.array_equal(out.t.value, exp_t.value):
+        if len(out.t) != ns or not same_bits(out.t.value, exp_t.value):
             ok = False
             why.append("trajectory times differ from the engine's")
-        if len(out.data) != ns * size or not np.array_equal(out.data.value, exp_x.value):
+        if len(out.data) != ns * size or not same_bits(out.data.value, exp_x.value):
             ok = False
             why.append("trajectory data differ from the engine's / wrong length")
         if not (out.t.units == exp_t.units and out.data.units == exp_x.units):
